@@ -490,7 +490,37 @@ def rule_P4(ctx):
     ctx.ob("P4", mt, "an input channel is swapped iff its stream's byte order differs from the host's (one flag per interleaved channel of each stream)", ok, det, inst="swap-predicate")
     ifs = [i for i in own_nodes(mt) if isinstance(i, ast.If) and norm(i.test) == "dest_encoding.endianess != system_byte_order"]
     ok = len(ifs) == 1 and "swap_endianess" in full(ifs[0].body[0])
-    ctx.ob("P4", mt, "the output is swapped iff the destination byte order differs from the host's", ok, "", inst="output-swap")
+    det_os = ""
+    if ok:
+        # per path of the pipeline branch: steps are only ever added to the process list; when the destination order differs from the
+        # host's the last step added is the plain byte swap, otherwise no output swap is added
+        removers = [c for c in own_nodes(mt) if isinstance(c, ast.Call) and isinstance(c.func, ast.Attribute) and c.func.attr in ("pop", "remove", "clear", "insert", "reverse", "sort")
+                    and norm(c.func.value) == "processes"]
+        removers += [d_ for d_ in own_nodes(mt) if isinstance(d_, ast.Delete) and any("processes" in norm(t_) for t_ in d_.targets)]
+        if removers:
+            ok, det_os = False, f"`{norm(removers[0])[:60]}` takes a queued step out of the pipeline"
+        n_sw = n_no = 0
+        for p_ in run_paths(ctx, mt, rule="P4", limit=6000):
+            if p_.end != "return":
+                continue
+            truth_ = next((t_ for c_, t_, n_ in p_.conds if n_ is ifs[0]), None)
+            if truth_ is None:
+                continue  # pass-through: returned before the pipeline is assembled
+            steps_ = []
+            for c, e, st in calls_on(p_):
+                if isinstance(c.func, ast.Attribute) and c.func.attr == "append" and norm(c.func.value) == "processes" and c.args and isinstance(c.args[0], ast.Tuple) and len(c.args[0].elts) == 2:
+                    steps_.append((norm(c.args[0].elts[0]), evaluator(ctx, mt, e).ev(c.args[0].elts[1]).key(), st))
+            outs_ = [s_ for s_ in steps_ if "output" in s_[0]]
+            if truth_:
+                n_sw += 1
+                if not (len(outs_) == 1 and outs_[0][1] == "swap_endianess" and steps_ and steps_[-1] is outs_[0]):
+                    ok, det_os = False, f"destination order differs from the host's but the steps are {[s_[0] for s_ in steps_]}"
+            else:
+                n_no += 1
+                if outs_:
+                    ok, det_os = False, "an output swap is added although the destination order is the host's"
+        ok = ok and n_sw >= 1 and n_no >= 1
+    ctx.ob("P4", mt, "the output is swapped iff the destination byte order differs from the host's", ok, det_os, inst="output-swap")
     # dispatch decided per path: no flag set -> no input swap; all set -> swap_endianess; mixed -> swap_endianess_multi
     from .util import truth_of
     fl = sorted(flag_names)[0] if len(flag_names) == 1 else "swaps"
